@@ -90,7 +90,7 @@ def run(scn):
         if fam == "axi2axil":
             sc = scn["slave"]
             sa = bench.add(AXILSlave(sb, name="s", awready=sc["aw"], wready=sc["w"], arready=sc["ar"], lat=sc["lat"], depth=sc["depth"],
-                                     read_data=lambda a: sum(hb(a + i) << (8 * i) for i in range(4)), memory=True))
+                                     read_data=lambda a: sum(hb(a + i) << (8 * i) for i in range(4)), memory=True, ar_with_r=sc.get("ar_with_r", False)))
             store_byte = lambda b_: (sa._rdata(b_ & ~3) >> (8 * (b_ & 3))) & 0xff  # noqa
         else:
             sa = bench.add(WBSlave(wb, scn["lat"], name="s", init=lambda a: sum(hb(a * 4 + i) << (8 * i) for i in range(4))))
